@@ -128,6 +128,9 @@ type c03Cfg struct {
 	BatchMin    int     `json:"batch_min"`
 	BatchMax    int     `json:"batch_max"`
 	CloseFails  bool    `json:"storage_close_fails,omitempty"` // stopping the queue itself reports an error: everything else must still be stopped
+	// ExpiredCtx: Shutdown is called with a context that is already done (the caller's shutdown deadline has passed): what
+	// Shutdown guarantees when it returns does not depend on it
+	ExpiredCtx bool `json:"shutdown_context_already_done,omitempty"`
 }
 
 type c03Obs struct {
@@ -264,7 +267,13 @@ func c03Body(cf *c03Cfg, o *c03Obs) func() {
 		shutdown := func() {
 			o.clk++
 			o.shutdownReq = o.clk
-			if err := be.Shutdown(context.Background()); err != nil {
+			sctx := context.Background()
+			if cf.ExpiredCtx {
+				var cancel context.CancelFunc
+				sctx, cancel = context.WithCancel(sctx)
+				cancel()
+			}
+			if err := be.Shutdown(sctx); err != nil {
 				o.shutdownErr = err.Error()
 			}
 			o.clk++
@@ -418,6 +427,9 @@ func c03Configs(quick bool) []*c03Cfg {
 		if c.CloseFails {
 			c.Name += ",storage-close-fails"
 		}
+		if c.ExpiredCtx {
+			c.Name += ",shutdown-context-done"
+		}
 		if c.FreeBackend {
 			c.Name += fmt.Sprintf(",free-backend,batch=%d..%d", c.BatchMin, c.BatchMax)
 		}
@@ -434,6 +446,9 @@ func c03Configs(quick bool) []*c03Cfg {
 			add(c03Cfg{Batch: true, Retry: retry, Consumers: 1, Producers: [][]int{{1}, {2}}, Concurrent: true})
 		}
 	}
+	add(c03Cfg{Batch: true, Retry: true, Consumers: 1, Producers: [][]int{{1}}, Concurrent: false, ExpiredCtx: true})
+	add(c03Cfg{Batch: true, Consumers: 1, Producers: [][]int{{1, 2}}, Concurrent: true, ExpiredCtx: true})
+	add(c03Cfg{Consumers: 1, Producers: [][]int{{1}, {2}}, Concurrent: true, ExpiredCtx: true})
 	add(c03Cfg{Consumers: 2, Producers: [][]int{{1, 1}, {1}}, Concurrent: true})
 	add(c03Cfg{Consumers: 1, WFR: true, Producers: [][]int{{1}, {2}}, Concurrent: true})
 	add(c03Cfg{Batch: true, Consumers: 1, WFR: true, Producers: [][]int{{1}}, Concurrent: true})
